@@ -5,7 +5,7 @@
   brought in, for output ports the size read after the children have delivered theirs.  Plus the elementary facts about
   how sizes travel: what is pushed along a connection is exactly the compiled size of its source port, and an unsized
   port (whose size is its own port variable) takes exactly what was pushed.
-  PARTIAL: as C01 (no repetition wrappers / user-written sum_over in the refinement theorem).
+  PARTIAL: as C01 (`plainB`: no closed-form/custom sequences, no user-written sum_over in the refinement theorem).
 -/
 import BartiqProofs.Refinement
 namespace Bartiq
